@@ -32,7 +32,7 @@ LDFLAGS = ["-Wl,--wrap=malloc,--wrap=calloc,--wrap=realloc,--wrap=free"]
 NEGATIVE = ["leak_old_map", "no_ref_new", "selfattach", "cb_after_frees", "cb_twice", "no_free_bits",
             "filter_leak", "transform_leak", "glyph_leak", "fini_keeps_map", "cache_destroy_leaks_glyphs",
             "bad_insert_keeps_entry"]
-NCV = {"create": 8, "alpha": 2, "transform": 3, "filter": 3, "clip": 4, "ginsert": 4}
+NCV = {"create": 8, "alpha": 2, "transform": 3, "filter": 4, "clip": 4, "ginsert": 4}
 
 
 def mc(chk, tier):
@@ -115,6 +115,30 @@ HANDWRITTEN = [
     ["gcreate 0 0 0 0", "gbad 0 1 0 0", "gdestroy 0 0 0 0", "gcreate 0 0 0 0", "gbad 0 1 0 0", "gbad 0 1 0 0",
      "create 1 0 2 0", "ginsert 1 1 0 0", "unref 1 0 0 0", "gthaw 0 0 0 0", "gremove 0 1 0 0", "gdestroy 0 0 0 0"],
 ]
+
+
+
+
+def setter_pair_histories():
+    """Owned buffers are exchanged by the setters: every ordered pair, and every triple with a detour over "none", of the
+       concrete presentations of a value (NULL / given, each kernel, a parameter block of length 0, each matrix, each clip
+       shape) applied to one image of every kind, with and without a use in between, then released."""
+    out = []
+    vals = {"filter": [(0, 0), (0, 1), (1, 0), (1, 1), (1, 2), (1, 3)],
+            "transform": [(0, 0), (0, 1), (1, 0), (1, 1), (1, 2)],
+            "clip": [(0, 0), (1, 0), (1, 1), (2, 0), (2, 1), (2, 2), (2, 3)]}
+    kind = 0
+    for op, vs in vals.items():
+        for a in vs:
+            for b in vs:
+                kind += 1
+                for use in (0, 1):
+                    h = ["create 1 0 %d %d" % (1 + kind % 5, kind % 8), "%s 1 0 %d %d" % (op, a[0], a[1])]
+                    if use:
+                        h.append("use 1 0 0 0")
+                    h += ["%s 1 0 %d %d" % (op, b[0], b[1]), "use 1 0 0 0", "%s 1 0 %d %d" % (op, a[0], a[1]), "unref 1 0 0 0"]
+                    out.append(h)
+    return out
 
 
 # thaw evicting glyphs: needs more glyphs than the high-water mark, so these run on the build whose marks are 4 / 2
@@ -202,9 +226,12 @@ def run(prop, args):
         execs.append(to_script(b, "gen%d" % k, rng))
     for k, h in enumerate(HANDWRITTEN):
         execs.append(["reset hand%d" % k] + h + ["end"])
+    sp_h = setter_pair_histories()
+    for k, h in enumerate(sp_h):
+        execs.append(["reset pair%d" % k] + h + ["end"])
     chk.extra["executions"] = len(execs)
     chk.extra["tlc_generated_behaviours"] = {"breadth_first": len(bfs), "generate_depth25": len(rnd),
-                                             "handwritten": len(HANDWRITTEN)}
+                                             "handwritten": len(HANDWRITTEN), "setter_value_pairs": len(sp_h)}
 
     # 3. execute on the real library (ASan build of /repo's working tree)
     nb = 8 if quick else 12
